@@ -1,3 +1,3 @@
-Require Import ModModel ModAnti.
+Require Import ModModel ModAnti ModBackend.
 Require Extraction. Require Import ExtrOcamlBasic.
-Extraction "mod_model.ml" ModModel.run ModModel.monitor ModAnti.run2.
+Extraction "mod_model.ml" ModModel.run ModModel.monitor ModAnti.run2 ModBackend.run3.
